@@ -4,7 +4,7 @@
 //! The core idea is that we install a custom panic hook (`init_panic_hook`) that runs when a thread
 //! panics. That hook tries to print information about the failing schedule by calling
 //! `persist_failure`.
-use std::cell::Cell;
+use std::cell::{Cell, RefCell};
 use std::fs::OpenOptions;
 use std::io::{ErrorKind, Write};
 use std::panic;
@@ -16,8 +16,16 @@ use crate::runtime::execution::{CurrentSchedule, ExecutionState};
 use crate::scheduler::serialization::serialize_schedule;
 
 // When we last persisted a schedule. Used so that we don't persist the same schedule twice.
+// `usize::MAX` means that nothing has been persisted yet for the current execution.
 thread_local! {
-    static SCHEDULE_PERSISTED_AT: Cell<usize> = const { Cell::new(0) };
+    static SCHEDULE_PERSISTED_AT: Cell<usize> = const { Cell::new(usize::MAX) };
+}
+
+// The configuration of the run whose execution is currently in progress on this thread. The panic
+// hook is installed only once per process, so it must not capture the configuration of whichever
+// run happened to install it.
+thread_local! {
+    static CURRENT_CONFIG: RefCell<Option<Config>> = const { RefCell::new(None) };
 }
 
 /// Persist (to stderr or to file) a message describing how to replay a failing schedule.
@@ -89,6 +97,11 @@ fn persist_failure_to_file(serialized_schedule: &str, destination: Option<&PathB
 /// See the module documentation for more details on how this method fits into the failure reporting
 /// story.
 pub fn init_panic_hook(config: Config) {
+    // A new execution starts: its failure has not been persisted yet, whatever earlier executions
+    // or runs on this thread persisted, and it is reported according to its own configuration.
+    SCHEDULE_PERSISTED_AT.set(usize::MAX);
+    CURRENT_CONFIG.with(|c| *c.borrow_mut() = Some(config));
+
     static INIT: Once = Once::new();
     INIT.call_once(|| {
         let original_hook = panic::take_hook();
@@ -96,7 +109,14 @@ pub fn init_panic_hook(config: Config) {
             eprintln!("Task failed, serializing schedule");
             let task_name = ExecutionState::failing_task();
             eprintln!("test panicked in task '{task_name}'");
-            persist_failure(&config);
+            // `try_borrow`: never panic inside the panic hook
+            CURRENT_CONFIG.with(|c| {
+                if let Ok(config) = c.try_borrow() {
+                    if let Some(config) = config.as_ref() {
+                        persist_failure(config);
+                    }
+                }
+            });
             original_hook(panic_info);
         }));
     });
